@@ -252,7 +252,8 @@ def _float_to_sibling_result(result_to_convert, template_result):
 
     """
     if isinstance(template_result, float):
-        return result_to_convert
+        # keep the (numpy) scalar type of the sibling so that it can be cast like the other results
+        return type(template_result)(result_to_convert)
     # get any array like object that might be wrapped by our template (ex. xarray DataArray)
     array_like = template_result if hasattr(template_result, "__array_function__") else template_result.data
     array_convert = np.asarray(result_to_convert, like=array_like)
